@@ -20,7 +20,21 @@ import time
 import warnings
 
 VERIF = os.path.dirname(os.path.dirname(os.path.abspath(__file__)))
-NPROC = int(os.environ.get("VERIF_NPROC", "16"))
+def _default_nproc():
+    """16 workers on an idle machine; fewer when the machine is already oversubscribed (shared development)."""
+    try:
+        load = os.getloadavg()[0]
+    except OSError:
+        load = 0.
+    n = os.cpu_count() or 16
+    if load > 2 * n:
+        return max(4, n // 4)
+    if load > n:
+        return max(4, n // 2)
+    return n
+
+
+NPROC = int(os.environ.get("VERIF_NPROC", "0") or 0) or _default_nproc()
 
 
 # ----------------------------------------------------------------------------------------------
